@@ -1,6 +1,6 @@
 /* harness/strpriv.c — contracts and proof harnesses for the leaf compare / search functions (C06, C07), mode B. */
 
-static void sp_ghosts(void) { GI0 = nondet_size_t(); GI1 = nondet_size_t(); GI2 = nondet_size_t(); TRC_HIT = 0; CI_HIT = 0; TRC_PROBE = NULL; TRF_PROBE = NULL; CI_PROBE = NULL; }
+static void sp_ghosts(void) { GI0 = nondet_size_t(); GI1 = nondet_size_t(); GI2 = nondet_size_t(); TRC_HIT = 0; CI_HIT = 0; TRC_CALLS = 0; TRC_CI = 0; TRC_PROBE = NULL; TRF_PROBE = NULL; CI_PROBE = NULL; }
 static char *mk_bytes(size_t n) { char *p = malloc(n); __CPROVER_assume(p != NULL); return p; }
 
 #include "/verif/harness/leaf_stubs.h"
